@@ -206,7 +206,7 @@ func parseModel(out string) map[string]string {
 			if depth == 2 && start >= 0 {
 				pair := s[start+1 : k]
 				name, val := splitPair(pair)
-				m[name] = val
+				m[strings.Trim(name, "|")] = val
 				start = -1
 			}
 			depth--
